@@ -355,6 +355,10 @@ class _Beam(_IModel):
         u = simu._Get_u_n(simu.problemType, asCsrMatrix=True)
         integral = (u.T @ f)[0, 0]
         kappa = bending_inertia**2 / (section.area * integral)
+        # This helper simulation is done: the section must not keep it as an observer (it would be
+        # notified of every later change of the section, and its local weak forms cannot be pickled,
+        # which made every beam simulation impossible to save).
+        section._Remove_observer(simu)
         return kappa
 
 
